@@ -82,7 +82,7 @@ def analyse(ctx):
                             viols.setdefault((ob, meth, tr, 'the construct leaves the operand stack at height %s relative to its start; %s must leave %s'
                                               % (st.h, 'an expression' if ob == 'O1' else 'a statement', want)), None)
                     arms.append({'method': meth, 'trace': tr, 'dh': repr(st.h) if st.reach else None, 'last': st.last, 'reach': st.reach,
-                                 'emits': [e[0] for e in st.emits]})
+                                 'emits': [e[0] for e in st.emits], 'code': st.code, 'end_pos': st.pos, 'bound_end': bool(st.bound)})
                     if top:
                         for k, h, f, r, asm in st.escapes:
                             if r:
